@@ -674,6 +674,10 @@ class ExtendedKalmanFilter:
         next_covariance = covariance.data - np.matmul(
             K_t, np.matmul(H_t, covariance.data)
         )
+        # K H P is symmetric in exact arithmetic. Remove the rounding asymmetry
+        # (relative to the prior, not the posterior) so that it can not
+        # accumulate until the covariance is refused as asymmetric
+        next_covariance = (next_covariance + next_covariance.transpose()) / 2.0
 
         next_state = state.data + np.matmul(K_t, innovation)
 
